@@ -82,6 +82,9 @@ type Chain struct {
 	NCtx     int
 	TxSeq    uint64
 
+	LastTxHash   []byte // what the host application supplied to the message in progress
+	LastMsgIndex int64
+
 	cbs     []Callback // callbacks of the step in progress
 	ModSvcs map[string]string
 
@@ -113,6 +116,9 @@ func addrOf(name string) sdk.AccAddress {
 		return append(sdk.AccAddress{}, addrOf(strings.TrimSuffix(name, "-"))[:19]...)
 	}
 	h := sha256.Sum256([]byte("verif-account-" + name))
+	if strings.HasPrefix(name, "pz") {
+		h[7] = 0 // an ordinary 20-byte address that happens to contain a zero byte
+	}
 	return sdk.AccAddress(h[:20])
 }
 
@@ -239,8 +245,10 @@ type Outcome struct {
 func (c *Chain) run(f func(ctx sdk.Context) error) (out Outcome) {
 	activeChain = c
 	cacheCtx, write := c.Ctx.CacheContext()
+	c.LastTxHash = c.nextTxHash()
+	c.LastMsgIndex = int64(c.TxSeq % 3) // not always the first message of its transaction
 	cacheCtx = cacheCtx.WithContext(context.WithValue(
-		context.WithValue(cacheCtx.Context(), types.TxHash, c.nextTxHash()), types.MsgIndex, int64(0)))
+		context.WithValue(cacheCtx.Context(), types.TxHash, c.LastTxHash), types.MsgIndex, c.LastMsgIndex))
 	saved := len(c.cbs)
 	defer func() {
 		if r := recover(); r != nil {
